@@ -6,7 +6,7 @@ from cgsim import gen as G, ref
 from cgsim.core import fp, Skip, state_digest
 
 ID = "C15"
-QUICK = dict(worlds=16, runs=1500, seconds=25)
+QUICK = dict(worlds=16, runs=1500, seconds=15)
 THOROUGH = dict(worlds=256, runs=5000, seconds=30)
 RULE = ("(reader) bench texts rendered from a seeded abstract netlist with layout variants; (writer) seeded "
         "blackbox-free circuits with >= 1 input; distinct = abstract netlist/circuit fingerprint + layout; "
